@@ -78,6 +78,13 @@ pub fn auth_probe(s: &Sim) -> StateObs {
         ("validator_like", p20("val-like")),
     ];
     let monitors: Vec<String> = s.m.monitors.clone();
+    // every configured monitor is a principal (a team of twelve as well as the usual two)
+    let mut principals = principals;
+    for (i, m) in monitors.iter().enumerate() {
+        if !principals.iter().any(|p| p.1 == *m) {
+            principals.push((["monitor_a", "monitor_b", "monitor_c", "monitor_d", "monitor_e", "monitor_f", "monitor_g", "monitor_h", "monitor_i", "monitor_j", "monitor_k", "monitor_l"][i % 12], m.clone()));
+        }
+    }
     let vprefix = cfg.native_chain_config.validator_address_prefix.clone();
     let new_val = bech::addr(&vprefix, "val-new", 20);
     let old_val = cfg.native_chain_config.validators.first().map(|v| v.to_string()).unwrap_or_else(|| new_val.clone());
